@@ -181,6 +181,34 @@ def run(db, tier):
                       "writes %d header bytes == instr_header_size() %s" % (total, size),
                       "write_instr emits %d bytes before the argument blob but instr_header_size() returns %s: offsets and sizes computed from it are wrong" % (total, size))
     rep.floor("paired header fields", n_fields, 30)
+    # ---------------- R-UTF8-LEN: byte counts in the output come from encoded bytes, never from source text
+    rep.rule("R-UTF8-LEN", "writer-reachable code of the binary layer (formats::, llir::, io::) never measures text with str::len / "
+                           "String::len / chars().count(): lengths, paddings and offsets written to a file must be taken from the "
+                           "Shift-JIS `Encoded` bytes that are actually written")
+    n_scan = 0
+    n_len = 0
+    for f in sorted(db.fns.values(), key=lambda f: (f.file, f.line)):
+        root_id = f.parent if (f.closure and f.parent) else f.id
+        if f.gen or (f.id not in W and root_id not in W):
+            continue
+        if not re.match(r"^<?(formats::|llir::|io::)", f.id):
+            continue
+        n_scan += 1
+        for bi, t in f.calls():
+            c = t.get("f", "")
+            if c in ("core::str::<impl str>::len", "alloc::string::String::len", "core::str::<impl str>::chars"):
+                n_len += 1
+                dl = place_local(t["d"])
+                sinks = lossy.forward_sinks(db, f, dl, bi, re.compile(r"^(io::BinWrite::|io::Encoded::|alloc::vec::Vec::<T, A>::resize)")) if dl is not None else [("?", "?")]
+                if not sinks:
+                    rep.ok("R-UTF8-LEN", "%s|%s|unwritten-%d" % (f.id, c.rsplit("::", 1)[-1], n_len), "%s:%d" % (f.file, t["ln"]),
+                           "a text length that does not flow into the file or into a writer call")
+                    continue
+                rep.bad("R-UTF8-LEN", "%s|%s" % (f.id, c.rsplit("::", 1)[-1]), "%s:%d" % (f.file, t["ln"]),
+                        "the UTF-8 length of source text is used in the binary writer layer: for non-ASCII text it differs from the number of "
+                        "Shift-JIS bytes written, so sizes / alignment padding / offsets derived from it are wrong")
+    rep.check(True, "R-UTF8-LEN", "binary-layer|scan", "src/formats", "%d writer-reachable functions of the binary layer scanned" % n_scan)
+    rep.floor("writer-reachable binary-layer functions scanned for text lengths", n_scan, 150)
     stale = sorted(set(table) - used_table)
     if stale:
         rep.note("audit-table entries not matched by any cast on this tree (stale, harmless): %s" % stale)
